@@ -364,6 +364,20 @@ def is_err_term(t):
     return False
 
 
+def error_blocks(body):
+    """blocks that set an error value which must end the function with that error: a whole definition of the return slot
+    (local 0) - or of the return slot of an inlined `helper(..)?` call (locals flagged err_exit by engine/inline.py) - by an
+    error term only"""
+    out = set()
+    for d in defs_in(body, body.cfg.reach):
+        if d[1]:
+            continue
+        if d[0] == 0 or body.locals[d[0]].get('err_exit'):
+            if all(is_err_term(a) for a in alts(d[2])):
+                out.add(d[3])
+    return out
+
+
 def is_ok_agg(t):
     return t[0] == 'agg' and t[2] == 'Ok'
 
@@ -591,10 +605,7 @@ def must_pass(body, start, target):
     """every non-error path from block `start` to a return passes through block `target`
     (paths that set an error return value may bypass it)"""
     cfg = body.cfg
-    errb = set()
-    for d in defs_in(body, cfg.reach):
-        if d[0] == 0 and not d[1] and all(is_err_term(a) for a in alts(d[2])):
-            errb.add(d[3])
+    errb = error_blocks(body)
     seen = set()
     st = [start]
     while st:
